@@ -1023,3 +1023,140 @@ Lemma C18huge_model_ok_lemma : forall op k, ok_C18huge op k (run_C18huge op k) =
 Proof.
   intros op k. unfold ok_C18huge, run_C18huge. destruct (op =? 10); rewrite ?N.eqb_refl; reflexivity.
 Qed.
+
+(* ------------------------------------------------------------------ suite C18arr: the ARRAY forms on zero-sized elements.
+   The Dirty.v functions at element size 0 meet the checker for EVERY page size, region size, offset, element count
+   (0 .. usize::MAX), index and buffer length: never a panic class, no byte written, no page marked, and Ok whenever the
+   array exists at an offset inside the region (and, for copy_to_volatile_slice, the destination slice exists). *)
+Lemma arr_region_clean ps size : Forall (fun b => b = false) (flat_map Dirty.r_dirty [arr_region ps size]).
+Proof.
+  cbn [flat_map arr_region Dirty.r_dirty]. rewrite app_nil_r. apply Forall_forall. intros b Hb.
+  apply repeat_spec in Hb. exact Hb.
+Qed.
+
+Lemma mark_len0 ps d off v : Dirty.mark ps d off 0 v = d.
+Proof. unfold Dirty.mark. rewrite N.eqb_refl. reflexivity. Qed.
+
+Lemma arr_get ps size off n :
+  Dirty.derive (Dirty.root (arr_region ps size)) (Dirty.DGetArr off 0 n) =
+  if (ISZ_MAX <? n) then None else
+  match checked_add off 0 with
+  | None => None
+  | Some e => if size <? e then None
+              else Some {| Dirty.a_off := 0 + off; Dirty.a_len := 0; Dirty.a_bm := Dirty.bm_at 0 off; Dirty.a_kind := Dirty.KArr 0 n |}
+  end.
+Proof.
+  unfold Dirty.derive; cbn [Dirty.a_kind Dirty.root]. rewrite N.mul_0_r.
+  assert (Z0 : (ISZ_MAX <? 0) = false) by (apply N.ltb_ge; apply N.le_0_l). rewrite Z0, orb_false_r.
+  destruct (ISZ_MAX <? n); [reflexivity|]. unfold Dirty.d_sub; cbn [Dirty.a_len Dirty.a_off Dirty.a_bm Dirty.root arr_region Dirty.r_size].
+  reflexivity.
+Qed.
+
+Lemma checked_add_0_r off : off < W64 -> checked_add off 0 = Some off.
+Proof.
+  intros H. unfold checked_add. rewrite N.add_0_r. destruct (N.ltb_spec off W64) as [L|L]; [reflexivity|lia].
+Qed.
+
+Lemma apply_eff_len0 ps size e : Dirty.e_mlen e = 0 -> Dirty.apply_eff [arr_region ps size] e = [arr_region ps size].
+Proof.
+  intros H. unfold Dirty.apply_eff. destruct (Dirty.e_r e) as [|j]; cbn [Dirty.upd_nth]; [|reflexivity].
+  cbn [Dirty.r_tracked arr_region]. rewrite H, mark_len0. reflexivity.
+Qed.
+
+Lemma arr_dirty_clean ps size : dirty_idx [arr_region ps size] = [].
+Proof. unfold dirty_idx. apply true_from_false. apply arr_region_clean. Qed.
+
+Lemma ok_arr_err size off n op i k :
+  ((off <? size) && (n <=? ISZ_MAX) && (if op =? 0 then i + k <=? size else true)) = false ->
+  ok_C18arr size off n op i k 1 [] [] = true.
+Proof. intros H. unfold ok_C18arr. rewrite H. reflexivity. Qed.
+Lemma ok_arr_ok size off n op i k : ok_C18arr size off n op i k 0 [] [] = true.
+Proof.
+  unfold ok_C18arr.
+  destruct ((off <? size) && (n <=? ISZ_MAX) && (if op =? 0 then i + k <=? size else true)); reflexivity.
+Qed.
+
+Lemma arr_refused ps size off n op i k : op <= 6 ->
+  Dirty.derive (Dirty.root (arr_region ps size)) (Dirty.DGetArr off 0 n) = None ->
+  run_C18arr ps size off n op i k = (1, 0, [], []).
+Proof.
+  intros Hop G. pose proof (arr_dirty_clean ps size) as Hclean. unfold run_C18arr, arr_step, arr_len_chain.
+  assert (Hop' : op = 0 \/ op = 1 \/ op = 2 \/ op = 3 \/ op = 4 \/ op = 5 \/ op = 6) by lia.
+  destruct Hop' as [->|[->|[->|[->|[->|[->| ->]]]]]].
+  - cbn [Dirty.run_step]. unfold Dirty.run_copy. cbn [nth_error Dirty.derive_chain]. rewrite G.
+    cbn [Dirty.o_ok Dirty.o_count Dirty.o_effs Dirty.fail Dirty.apply_effs fold_left flat_map]. rewrite Hclean. reflexivity.
+  - cbn [Dirty.run_step nth_error Dirty.derive_chain]. rewrite G.
+    cbn [Dirty.o_ok Dirty.o_count Dirty.o_effs Dirty.fail flat_map]. rewrite Hclean. reflexivity.
+  - cbn [Dirty.run_step nth_error Dirty.derive_chain]. rewrite G.
+    cbn [Dirty.o_ok Dirty.o_count Dirty.o_effs Dirty.fail flat_map]. rewrite Hclean. reflexivity.
+  - cbn [Dirty.run_step nth_error Dirty.derive_chain]. rewrite G.
+    cbn [Dirty.o_ok Dirty.o_count Dirty.o_effs Dirty.fail flat_map]. rewrite Hclean. reflexivity.
+  - cbn [Dirty.run_step nth_error Dirty.derive_chain]. rewrite G.
+    cbn [Dirty.o_ok Dirty.o_count Dirty.o_effs Dirty.fail flat_map]. rewrite Hclean. reflexivity.
+  - change (5 =? 5) with true. cbn [Dirty.derive_chain]. rewrite G. rewrite Hclean. reflexivity.
+  - change (6 =? 5) with false. cbn [Dirty.derive_chain]. rewrite G. rewrite Hclean. reflexivity.
+Qed.
+
+Lemma C18arr_model_ok_lemma : forall ps size off n zsel op i k,
+  wf_C18arr ps size off n zsel op i k = true ->
+  let '(cl, cnt, ch, d) := run_C18arr ps size off n op i k in ok_C18arr size off n op i k cl ch d = true.
+Proof.
+  intros ps size off n zsel op i k Hwf. unfold wf_C18arr in Hwf.
+  repeat (apply andb_true_iff in Hwf; destruct Hwf as [Hwf ?]).
+  match goal with H : (if (op =? 1) || (op =? 2) then _ else _) = true |- _ => clear H end.
+  match goal with H : (if (3 <=? op) && (op <=? 5) then _ else _) = true |- _ => rename H into Hi end.
+  assert (Hoff : off < W64) by (apply N.ltb_lt; assumption).
+  assert (Hsz : size <= 1048576) by (apply N.leb_le; assumption).
+  assert (Hop : op <= 6) by (apply N.leb_le; assumption).
+  pose proof (arr_dirty_clean ps size) as Hclean.
+  (* the array itself *)
+  pose proof (arr_get ps size off n) as G. rewrite (checked_add_0_r off Hoff) in G.
+  destruct (N.ltb_spec ISZ_MAX n) as [Hn|Hn].
+  { (* TooBig: every form is refused *)
+    rewrite (arr_refused ps size off n op i k Hop G). apply ok_arr_err.
+    assert (E : (n <=? ISZ_MAX) = false) by (apply N.leb_gt; exact Hn). rewrite E, andb_false_r. reflexivity. }
+  destruct (N.ltb_spec size off) as [Ho|Ho].
+  { rewrite (arr_refused ps size off n op i k Hop G). apply ok_arr_err.
+    assert (E : (off <? size) = false) by (apply N.ltb_ge; lia). rewrite E. reflexivity. }
+  unfold run_C18arr.
+  (* the array exists: a zero-byte accessor at [off] *)
+  set (a := {| Dirty.a_off := 0 + off; Dirty.a_len := 0; Dirty.a_bm := Dirty.bm_at 0 off; Dirty.a_kind := Dirty.KArr 0 n |}) in G.
+  unfold arr_step, arr_len_chain.
+  assert (Hop' : op = 0 \/ op = 1 \/ op = 2 \/ op = 3 \/ op = 4 \/ op = 5 \/ op = 6) by lia.
+  destruct Hop' as [->|[->|[->|[->|[->|[->| ->]]]]]];
+    try change (5 =? 5) with true; try change (6 =? 5) with false;
+    cbn [Dirty.run_step nth_error Dirty.derive_chain]; try unfold Dirty.run_copy; cbn [nth_error Dirty.derive_chain];
+    rewrite G.
+  - (* copy_to_volatile_slice *)
+    destruct (Dirty.d_sub (Dirty.root (arr_region ps size)) i k Dirty.KSlice) as [d|] eqn:D.
+    + cbn [Dirty.a_kind a Dirty.a_len Dirty.a_off]. unfold Dirty.ranges_overlap. cbn [N.ltb N.compare andb].
+      rewrite andb_false_r. cbn [Dirty.o_ok Dirty.o_count Dirty.o_effs Dirty.done Dirty.apply_effs fold_left flat_map Dirty.weff Dirty.e_wn].
+      rewrite N.min_0_l. cbn [N.ltb N.compare app].
+      rewrite apply_eff_len0 by reflexivity. rewrite Hclean. apply ok_arr_ok.
+    + cbn [Dirty.o_ok Dirty.o_count Dirty.o_effs Dirty.fail Dirty.apply_effs fold_left flat_map]. rewrite Hclean.
+      apply ok_arr_err. cbn [N.eqb].
+      unfold Dirty.d_sub in D. cbn [Dirty.a_len Dirty.root arr_region Dirty.r_size] in D.
+      destruct (N.leb_spec (i + k) size) as [L|L]; [|rewrite andb_false_r; reflexivity].
+      exfalso. unfold checked_add in D. destruct (N.ltb_spec (i + k) W64) as [L2|L2]; [|rewrite W64_val in L2; lia].
+      destruct (N.ltb_spec size (i + k)); [lia|discriminate].
+  - (* copy_to *)
+    unfold Dirty.run_sop; cbn [Dirty.a_kind a]; change (0 =? 1) with false; cbv beta iota. cbn [Dirty.o_ok Dirty.o_count Dirty.o_effs Dirty.done Dirty.apply_effs fold_left flat_map].
+    rewrite Hclean. apply ok_arr_ok.
+  - (* copy_from *)
+    unfold Dirty.run_sop; cbn [Dirty.a_kind a]; change (0 =? 1) with false; cbv beta iota. cbn [Dirty.o_ok Dirty.o_count Dirty.o_effs Dirty.done Dirty.apply_effs fold_left flat_map Dirty.weff Dirty.e_wn].
+    rewrite N.mul_0_r. cbn [N.ltb N.compare app]. rewrite apply_eff_len0 by (cbn [Dirty.e_mlen]; reflexivity).
+    rewrite Hclean. apply ok_arr_ok.
+  - (* store *)
+    change ((i <? n) = true) in Hi. unfold Dirty.run_sop; cbn [Dirty.a_kind a]. rewrite Hi.
+    cbn [Dirty.o_ok Dirty.o_count Dirty.o_effs Dirty.done Dirty.apply_effs fold_left flat_map Dirty.e_wn N.ltb N.compare app].
+    rewrite apply_eff_len0 by reflexivity. rewrite Hclean. apply ok_arr_ok.
+  - (* load *)
+    change ((i <? n) = true) in Hi. unfold Dirty.run_sop; cbn [Dirty.a_kind a]. rewrite Hi.
+    cbn [Dirty.o_ok Dirty.o_count Dirty.o_effs Dirty.done Dirty.apply_effs fold_left flat_map].
+    rewrite Hclean. apply ok_arr_ok.
+  - (* ref_at(i).to_slice() *)
+    change ((i <? n) = true) in Hi. unfold Dirty.derive at 1. cbn [Dirty.a_kind a]. rewrite Hi.
+    cbn [Dirty.derive Dirty.a_kind]. rewrite Hclean. apply ok_arr_ok.
+  - (* to_slice() *)
+    cbn [Dirty.derive Dirty.a_kind a]. rewrite Hclean. apply ok_arr_ok.
+Qed.
